@@ -79,12 +79,49 @@ def protoPre (name : Bytes) : Bytes := (ns ++ ascii "protocolname/") ++ name
 /-- `serviceFactory.Register`: the name itself -/
 def servicePre (name : Bytes) : Bytes := name
 
-/-- `ServerIdentity.GetID`: `NamespaceURL + "id/" + Public.String()`, for a key whose text form is
-the hex of its encoding (Ed25519) -/
-def serverPre (key : Bytes) : Bytes := (ns ++ ascii "id/") ++ hexAscii key
+/-- `ServerIdentity.GetID`: `NamespaceURL + "id/" + Public.String()`, given the text form -/
+def serverPreStr (text : Bytes) : Bytes := (ns ++ ascii "id/") ++ text
 
-/-- `NewTreeNode`: `Public.String()` -/
-def nodePre (key : Bytes) : Bytes := hexAscii key
+/-- `NewTreeNode`: `Public.String()`, given the text form -/
+def nodePreStr (text : Bytes) : Bytes := text
+
+/-- the same for a key whose text form is the hex of its encoding (Ed25519) -/
+def serverPre (key : Bytes) : Bytes := serverPreStr (hexAscii key)
+
+def nodePre (key : Bytes) : Bytes := nodePreStr (hexAscii key)
+
+/-! ### the text forms (`Public.String()`) of the key suites -/
+
+/-- big-endian value of a byte string -/
+def beNat (b : Bytes) : Nat := b.foldl (fun acc x => acc * 256 + x) 0
+
+/-- `big.Int.String()`: decimal digits, no leading zeros (`"0"` for zero) -/
+def decAscii (n : Nat) : Bytes :=
+  if h : n < 10 then [48 + n] else decAscii (n / 10) ++ [48 + n % 10]
+termination_by n
+decreasing_by omega
+
+/-- the key suites whose server and node identifiers are modelled -/
+inductive KeyKind where
+  | ed25519    -- `e…`: 32-byte encoding, text form = hex of the encoding (kyber edwards25519/point.go:34)
+  | p256       -- `p…`: `04‖X‖Y` (65 bytes), text form `(X,Y)` in decimal (kyber group/nist/curve.go:21)
+  | bn256g1    -- `b…`: `X‖Y` (64 bytes), text form `bn256.G1(hex X,hex Y)` (kyber pairing/bn256/point.go:194)
+  | other      -- `g…`: bn256.G2 — used in rosters only, its text form is not modelled
+  deriving DecidableEq, Repr
+
+/-- `Public.String()` of a key of that kind, from its binary encoding; `none` when the encoding has
+not the suite's layout or the text form is not modelled -/
+def keyText : KeyKind → Bytes → Option Bytes
+  | .ed25519, k => some (hexAscii k)
+  | .p256, k =>
+    if k.length = 65 ∧ k.head? = some 4 then
+      some (ascii "(" ++ (decAscii (beNat ((k.drop 1).take 32)) ++ (ascii "," ++ (decAscii (beNat (k.drop 33)) ++ ascii ")"))))
+    else none
+  | .bn256g1, k =>
+    if k.length = 64 then
+      some (ascii "bn256.G1(" ++ (hexAscii (k.take 32) ++ (ascii "," ++ (hexAscii (k.drop 32) ++ ascii ")"))))
+    else none
+  | .other, _ => none
 
 /-! ### rosters (tree.go:417-479) -/
 
@@ -205,6 +242,9 @@ def protoId (H : HashFns) (name : Bytes) : Bytes := uuid3 H (protoPre name)
 def serviceId (H : HashFns) (name : Bytes) : Bytes := uuid5 H (servicePre name)
 def serverId (H : HashFns) (key : Bytes) : Bytes := uuid5 H (serverPre key)
 def nodeId (H : HashFns) (key : Bytes) : Bytes := uuid5 H (nodePre key)
+/-- server and node identifier of a key given by its text form (any suite) -/
+def serverIdStr (H : HashFns) (text : Bytes) : Bytes := uuid5 H (serverPreStr text)
+def nodeIdStr (H : HashFns) (text : Bytes) : Bytes := uuid5 H (nodePreStr text)
 /-- the roster id as a function of the pre-image -/
 def rosterIdOfPre (H : HashFns) (p : Bytes) : Bytes := uuid5 H (hexAscii (H.sha256 p))
 def rosterId (H : HashFns) (ro : List Member) : Bytes := rosterIdOfPre H (rosterPre ro)
@@ -291,8 +331,9 @@ def realHash : HashFns := { sha256 := Hash.sha256, sha1 := Hash.sha1, md5 := Has
 /-- the key table (Ed25519 keys `e…`, other suites `g…`: usable in rosters only) and the current
 roster: its members and its id -/
 structure State where
-  keys   : Array (Bool × Bytes) := #[]
+  keys   : Array (KeyKind × Bytes) := #[]
   roster : Array Member := #[]
+  rkind  : Option KeyKind := none     -- the suite of the current roster's server keys
   rid    : Bytes := []
   svcs   : List SvcEntry := []
   protos : List Bytes := []
@@ -301,20 +342,38 @@ def init : State := {}
 
 def showUuid (u : Bytes) : String := String.ofList ((uuidStr u).map Char.ofNat)
 
-/-- `e<hex>` / `g<hex>` -/
-def parseKey (s : String) : Option (Bool × Bytes) :=
-  match s.toList with
-  | 'e' :: r => (Util.unhex (String.ofList r)).bind fun b => if b.isEmpty then none else some (true, b)
-  | 'g' :: r => (Util.unhex (String.ofList r)).bind fun b => if b.isEmpty then none else some (false, b)
-  | _ => none
+/-- `e<hex>` / `p<hex>` / `b<hex>` / `g<hex>` -/
+def parseKey (s : String) : Option (KeyKind × Bytes) :=
+  let kind : Option (KeyKind × List Char) :=
+    match s.toList with
+    | 'e' :: r => some (.ed25519, r)
+    | 'p' :: r => some (.p256, r)
+    | 'b' :: r => some (.bn256g1, r)
+    | 'g' :: r => some (.other, r)
+    | _ => none
+  kind.bind fun (k, r) =>
+    (Util.unhex (String.ofList r)).bind fun b =>
+      if b.isEmpty then none
+      else if k ≠ .other ∧ k ≠ .ed25519 ∧ (keyText k b).isNone then none   -- not the suite's layout
+      else some (k, b)
 
 /-- `i` or `i/j/k`: key index of the server, then of its service identities -/
-def parseMember (keys : Array (Bool × Bytes)) (s : String) : Option Member := do
+def parseMember (keys : Array (KeyKind × Bytes)) (s : String) : Option Member := do
   let idx ← (s.splitOn "/").mapM String.toNat?
   let ks ← idx.mapM fun i => (keys[i]?).map (·.2)
   match ks with
   | [] => none
   | k :: svcs => some { key := k, svcs := svcs }
+
+/-- the kind of the server key of a member token -/
+def memberKind (keys : Array (KeyKind × Bytes)) (s : String) : Option KeyKind :=
+  ((s.splitOn "/").head?.bind String.toNat?).bind fun i => (keys[i]?).map (·.1)
+
+/-- the server keys of the members all belong to one suite (`NewRoster` adds them up) -/
+def oneKind (keys : Array (KeyKind × Bytes)) (ms : List String) (want : Option KeyKind) : Option KeyKind :=
+  match ms.mapM (memberKind keys) with
+  | some (k :: rest) => if rest.all (· == k) ∧ (want.isNone ∨ want == some k) then some k else none
+  | _ => none
 
 /-- pre-order list of `member:arity` pairs → forest of `n` trees, with what is left over -/
 def parseForest (ro : Array Member) : (fuel : Nat) → (n : Nat) → List (Nat × Nat) → Option (Forest × List (Nat × Nat))
@@ -359,25 +418,27 @@ def step (s : State) (toks : List String) : State × String :=
     | some l =>
       if l.isEmpty then (s, "bad-op") else
       ({ s with keys := l.toArray },
-        " ".intercalate (l.map fun (ed, k) =>
-          if ed then showUuid (serverId realHash k) ++ "/" ++ showUuid (nodeId realHash k) else "-"))
+        " ".intercalate (l.map fun (kind, k) =>
+          match keyText kind k with
+          | some t => showUuid (serverIdStr realHash t) ++ "/" ++ showUuid (nodeIdStr realHash t)
+          | none => "-"))
     | none => (s, "bad-op")
   | "roster" :: ms =>
-    match ms.mapM (parseMember s.keys) with
-    | some l =>
+    match ms.mapM (parseMember s.keys), oneKind s.keys ms none with
+    | some l, some kind =>
       if l.isEmpty then (s, "bad-op") else
       let rid := rosterId realHash l
-      ({ s with roster := l.toArray, rid := rid }, showUuid rid)
-    | none => (s, "bad-op")
+      ({ s with roster := l.toArray, rid := rid, rkind := some kind }, showUuid rid)
+    | _, _ => (s, "bad-op")
   -- `concat <member> …`: Roster.Concat on the current roster; the result becomes the current roster
   | "concat" :: ms =>
-    match ms.mapM (parseMember s.keys) with
-    | some l =>
+    match ms.mapM (parseMember s.keys), oneKind s.keys ms s.rkind with
+    | some l, some _ =>
       if l.isEmpty ∨ s.roster.isEmpty then (s, "bad-op") else
       let r := concatMembers s.roster.toList l
       let rid := rosterId realHash r
       ({ s with roster := r.toArray, rid := rid }, showUuid rid)
-    | none => (s, "bad-op")
+    | _, _ => (s, "bad-op")
   -- `withroot <position>`: Roster.NewRosterWithRoot(List[position]); becomes the current roster
   | ["withroot", p] =>
     match p.toNat?.bind (withRoot s.roster.toList) with
